@@ -9,6 +9,18 @@ from . import common as cm
 from .common import FIELD
 
 FLOOR = 40
+# mutation analysis looks at the slice of each anchored function that can influence a validity value
+AUTOMUT_SEEDS = {"kw": ["valid"], "attr_store": ["_valid", "valid"]}
+AUTOMUT_TRIAGE = [
+    (r"_apply_operator|\.dot$|\.cross$|\.angle$|__lshift__|__getattr__|\.diff$", r"`(if|elif) .*`|`\s*(self\.array\.shape|or self\.nvdim).*`",
+     "operand/argument refusals and branch selection belong to C03/C02/C04 (reported there); no validity value depends on them"),
+    (r"\.sel$|__getitem__|_from_vtk|\.norm$|\.angle$|\.dot$|\.resample$|_h5_save_structure", r".",
+     "changes the data and its validity alike (same slices / same cell counts) or only data/metadata keywords: the property "
+     "relates validity to data, both sides move together"),
+    (r"\.to_vtk$", r"SetActive|`(if|elif) self\.nvdim == [13]:`", "which array a viewer shows first is not validity"),
+    (r"_as_array", r"name max->min", "the fallback dtype applies only when no dtype is requested; the validity setter requests bool"),
+    (r"\.to_vtk$", r"line 34[3-7]\d", "coordinates, norm/component arrays and refusals of to_vtk carry no validity"),
+]
 ANCHORS = [
     'field.Field.valid.setter',
     'field.Field._valid_as_field',
@@ -42,7 +54,7 @@ ANCHORS = [
     'field.Field._as_array[Callable]',
 ]   # functions whose code the property is anchored in (mutation analysis, evidence)
 
-PASS_THROUGH = ["field.Field.__abs__", "field.Field.__neg__", "field.Field.norm", "field.Field.orientation",
+PASS_THROUGH = ["field.Field.__pos__", "field.Field.__abs__", "field.Field.__neg__", "field.Field.norm", "field.Field.orientation",
                 "field.Field.__getattr__", "field.Field.real", "field.Field.imag", "field.Field.phase",
                 "field.Field.abs", "field.Field.conjugate", "field.Field.diff"]
 BINARY = [("field.Field._apply_operator", "other"), ("field.Field.dot", "other"), ("field.Field.cross", "other"),
@@ -420,6 +432,40 @@ def d5_setter(chk, repo):
                             okc = True
             chk.ob("field.Field.valid.setter::norm-keyword", okc, "C08.D5",
                    "the ~isclose(norm,0) mask must be selected by valid == 'norm'", v.f, norm_assign)
+    # when each of the three sources is chosen (finite propositional decision over the type tests / None tests)
+    from ..lib import cond_equiv, path_term
+    for st2 in v.stmts():
+        if not (isinstance(st2, ast.Assign) and len(st2.targets) == 1 and isinstance(st2.targets[0], ast.Name)):
+            continue
+        t2 = v.term(st2.value, at=st2)
+        if is_const(v.ctx, t2, True):
+            ok2 = cond_equiv(v, path_term(v, st2), v.spec("valid is None"))
+            chk.ob("field.Field.valid.setter::all-true-iff-none", ok2, "C08.D5",
+                   f"`{v.src(st2)}` is reached under {v.show(path_term(v, st2))}; expected exactly when no validity was given "
+                   "(otherwise a given mask is discarded)", v.f, st2)
+        elif v.eq(t2, v.spec("~np.isclose(self.norm.array, 0)")):
+            ok2 = cond_equiv(v, path_term(v, st2), v.spec("valid is not None and isinstance(valid, str) and valid == 'norm'"))
+            chk.ob("field.Field.valid.setter::norm-iff-keyword", ok2, "C08.D5",
+                   f"the norm mask is chosen under {v.show(path_term(v, st2))}; expected exactly for the string 'norm'", v.f, st2)
+    w = FV(repo, "field.Field._valid_as_field")
+    rets = [r for r in w.returns() if r.value is not None]
+    okf = len(rets) == 1 and w.eq(w.ev.term(rets[0].value, at=rets[0]),
+                                  w.spec("self.__class__(self.mesh, nvdim=1, value=self.valid, dtype=bool)"))
+    chk.ob("field.Field._valid_as_field::definition", okf, "C08.D5",
+           "the validity seen as a field must be Field(self.mesh, nvdim=1, value=self.valid, dtype=bool)", w.f,
+           rets[0] if rets else None)
+    # the conversion every validity value goes through: shapes and refusals of the constant/array overload (C02.D3 instances)
+    from . import c02, geom
+    c02.d3_rejection(chk, repo)
+    ov_ = cm.as_array_overloads(repo)
+    for key in ("Complex|Iterable", "Callable"):
+        x = FV(repo, ov_[key].qual)
+        for i, r in enumerate(x.returns()):
+            tt = x.ev.term(r.value, at=r)
+            oks = all(geom._shape_is_n_nvdim(x, b) for b in strip_stores(x.ctx, tt))
+            chk.ob(f"{ov_[key].qual}::return#{i}::shape", oks, "C08.D5",
+                   f"returns {x.show(tt)[:140]}: with nvdim=1 the setter takes [..., 0] of it, so it must have shape "
+                   "(*mesh.n, nvdim) for the stored mask to have the mesh shape", x.f, r)
     # dtype of every return of the array/constant and function overloads
     ov = cm.as_array_overloads(repo)
     for key in ("Complex|Iterable", "Callable"):
@@ -600,6 +646,13 @@ def d7_persistence(chk, repo):
     chk.ob("field.Field.to_vtk::valid-permutation", ok, "C08.D7",
            f"data permuted by {pf and pf[0]}, validity by {pv and pv[0]}: the spatial parts must agree and apply to "
            "self.array / self.valid", v.f, perms["valid_array"][2])
+    # flat layout: one row per cell for the data, one entry per cell for the validity
+    tf, tv_ = perms["field_array"][1], perms["valid_array"][1]
+    want_f = v.spec("vns.numpy_to_vtk(self.array.transpose((2, 1, 0, 3)).reshape((-1, self.nvdim)))")
+    want_v = v.spec("vns.numpy_to_vtk(self.valid.astype(int).transpose((2, 1, 0)).reshape(-1))")
+    chk.ob("field.Field.to_vtk::flat-layout", v.eq(tf, want_f) and v.eq(tv_, want_v), "C08.D7",
+           f"data written as {v.show(tf)[:140]}, validity as {v.show(tv_)[:140]}; expected x-fastest rows of nvdim values and "
+           "x-fastest integers (VTK has no Boolean arrays)", v.f, perms["valid_array"][2])
     chk.ob("field.Field.to_vtk::valid-name", "valid" in names.values() and "field" in names.values(),
            "C08.D7", f"array names {names}: reader looks for 'valid' and 'field'", v.f)
     # VTK reader
@@ -618,6 +671,43 @@ def d7_persistence(chk, repo):
         chk.ob("io.vtk._from_vtk::kw=valid", ok, "C08.D7",
                f"reader passes valid={v.show(vld)}; expected the 'valid' cell array reshaped to reversed(n) and transposed "
                f"by the inverse of the writer's (2,1,0), or True when absent", v.f, r)
+    # which cell array is the validity, and when it is used
+    from ..lib import cond_equiv, path_term
+    idx_assigns = {}
+    for st in v.stmts():
+        if isinstance(st, ast.Assign) and len(st.targets) == 1 and isinstance(st.targets[0], ast.Name) and \
+                isinstance(st.value, ast.Name) and any(isinstance(p_, ast.For) for p_, f_ in v.cfg.enclosing(st)):
+            idx_assigns[st.targets[0].id] = st
+    used = {}
+    for call, st in v.calls():
+        if isinstance(call.func, ast.Attribute) and call.func.attr == "GetArray" and call.args and isinstance(call.args[0], ast.Name):
+            used[call.args[0].id] = st
+    for nm, st in idx_assigns.items():
+        if nm not in used:
+            continue
+        pt = path_term(v, st)
+        loop = [p_ for p_, f_ in v.cfg.enclosing(st) if isinstance(p_, ast.For)][0]
+        it = v.term(loop.iter, at=loop)
+        idx = v.ctx.mk(("iter", ()), (it,))
+        arrname = v.spec("cell_data.GetArrayName(i)", env={"i": idx}, at=loop)
+        is_valid_reader = any(isinstance(x, ast.Name) and x.id == nm for p_, f_ in v.cfg.enclosing(used[nm])
+                              if isinstance(p_, ast.If) for x in ast.walk(p_.test))
+        label = "valid" if is_valid_reader else "field"
+        wants = [v.spec(f"a == '{label}'", env={"a": arrname}),
+                 v.spec("a == 'valid' and a != 'field'", env={"a": arrname}),
+                 v.spec("a == 'field' and a != 'valid'", env={"a": arrname})]
+        okn = v.eq(v.term(st.value, at=st), idx) and \
+            (cond_equiv(v, pt, wants[0]) or cond_equiv(v, pt, wants[1] if label == "valid" else wants[2]))
+        chk.ob(f"io.vtk._from_vtk::{label}-array-selected-by-name", okn, "C08.D7",
+               f"the index used to read the {label} array is taken under {v.show(pt)[:200]}; expected exactly for the cell "
+               f"array named '{label}'", v.f, st)
+        if is_valid_reader:
+            pu = path_term(v, used[nm])
+            okp = cond_equiv(v, pu, v.spec(f"{nm} is not None", at=used[nm]))
+            chk.ob("io.vtk._from_vtk::validity-read-iff-present", okp, "C08.D7",
+                   f"the validity array is read under {v.show(pu)[:160]}; expected exactly when a 'valid' array was found "
+                   "(otherwise all cells are valid)", v.f, used[nm])
+    chk.require(len([n_ for n_ in idx_assigns if n_ in used]) >= 2, "_from_vtk: the array indices for 'field' and 'valid' vanished")
     # name lookup
     src_names = set()
     for n in ast.walk(v.f.node):
